@@ -423,8 +423,17 @@ def run_check(prop, tier, seed, replay=None):
     pid = prop.ID
     os.makedirs(EVID, exist_ok=True)
     try:
-        setup()
-        obl = proof_obligations(pid)
+        # the generated Lean files (tables, translated functions) live in the one Lean project: regeneration, build and audit of one
+        # run are not interleaved with those of another (checks may run in parallel; trials of seeded changes run against other trees)
+        import fcntl
+        os.makedirs(os.path.join(LEAN, '.lake'), exist_ok=True)
+        with open(os.path.join(LEAN, '.lake', 'gen.lock'), 'w') as lk:
+            fcntl.flock(lk, fcntl.LOCK_EX)
+            try:
+                setup()
+                obl = proof_obligations(pid)
+            finally:
+                fcntl.flock(lk, fcntl.LOCK_UN)
     except InfraError as e:
         print(f'INFRA {pid}: {e}', file=sys.stderr)
         return 2
